@@ -53,15 +53,13 @@ class Excl:
         cfg = cfg_of(body)
         none_cuts = self._none_edges(body, origins)
         for c in CANDS:
-            for t in const_eq_tests(body, self.tracer, c):
-                if t["other"] is None or not (origin_keys(t["other"]) & vkeys):
-                    continue
-                if not t["false"]:
-                    continue
-                reach = cfg.reachable(cfg.entry, cut_edges=[e.key() for e in t["false"]] + none_cuts)
-                if bb not in reach:
-                    ex.add(c)
-                    proofs[c] = "dominating refusal in %s (block %d)" % (body.path, t["bb"])
+            ref = self._refuting_edges(body, vkeys, c)
+            if not ref:
+                continue
+            reach = cfg.reachable(cfg.entry, cut_edges=ref + none_cuts)
+            if bb not in reach:
+                ex.add(c)
+                proofs[c] = "every path in %s passes a test that rules out %r" % (body.path, c)
         # (2..5) per origin: all origins must exclude the constant
         per = None
         for o in origins:
@@ -76,6 +74,115 @@ class Excl:
         if per:
             ex |= per
         return ex, {k: v for k, v in proofs.items() if k in ex}
+
+    def _refuting_edges(self, body, vkeys, c):
+        """Edges on which a value with origin keys `vkeys` is known to differ from the constant c."""
+        key = ("refute", body.path, frozenset(vkeys), c)
+        if key in self._memo:
+            return self._memo[key]
+        cfg = cfg_of(body)
+        T = self.tracer
+        out = []
+        # (a) equality calls against constants
+        for t in body.calls("std::cmp::PartialEq::eq", "std::cmp::PartialEq::ne"):
+            if len(t.args) != 2:
+                continue
+            consts, others = [], []
+            for i in (0, 1):
+                os_ = T.origins_of_arg(t, i)
+                cb = [o.const_bytes() for o in os_ if o.kind == "const" and o.const_bytes() is not None]
+                if cb and len(cb) == len(os_):
+                    consts.extend(cb)
+                else:
+                    others.append(os_)
+            if len(consts) != 1 or len(others) != 1 or not (origin_keys(others[0]) & vkeys):
+                continue
+            be = bool_edges(body, t)
+            if be is None:
+                continue
+            eq_edges, ne_edges = (be["true"], be["false"]) if t.callee.endswith("::eq") else (be["false"], be["true"])
+            if consts[0] == c:
+                out.extend(e.key() for e in ne_edges)
+            else:
+                out.extend(e.key() for e in eq_edges)
+        # (b) slice patterns: length tests and element tests on a slice with the same origin
+        for blk in body.blocks:
+            if blk.cleanup or blk.term.kind != "switch":
+                continue
+            t = blk.term
+            d = Operand(t.raw["d"])
+            # element test:  switch (*x)[i]
+            if d.place is not None and d.place.proj and isinstance(d.place.proj[-1], dict) and "ci" in d.place.proj[-1] and not d.place.proj[-1].get("fe"):
+                i = d.place.proj[-1]["ci"]
+                base = Place({"l": d.place.local, "p": []})
+                if origin_keys(T.origins(body, blk.idx, len(blk.stmts), base)) & vkeys:
+                    explicit = [e.label[1] for e in cfg.succ.get(blk.idx, []) if e.label[1] != "otherwise"]
+                    for e in cfg.succ.get(blk.idx, []):
+                        v = e.label[1]
+                        if i >= len(c):
+                            continue
+                        if v == "otherwise":
+                            if ord(c[i]) in explicit:
+                                out.append(e.key())
+                        elif v != ord(c[i]):
+                            out.append(e.key())
+                continue
+            # length test:  l = Eq(PtrMetadata(x), const k) ; switch l
+            if d.place is None or not d.place.is_local:
+                continue
+            k = None
+            src = None
+            vals = {}
+            for st in blk.stmts:
+                if st.kind != "assign" or not st.lhs.is_local:
+                    continue
+                if st.rv["k"] == "un" and st.rv["op"] == "PtrMetadata":
+                    op = Operand(st.rv["a"])
+                    if op.place is not None:
+                        vals[st.lhs.local] = ("len", op.place.local)
+                elif st.rv["k"] == "use":
+                    op = Operand(st.rv["a"])
+                    if op.is_const and op.int_value() is not None:
+                        vals[st.lhs.local] = ("const", op.int_value())
+                    elif op.place is not None and op.place.is_local and op.place.local in vals:
+                        vals[st.lhs.local] = vals[op.place.local]
+                elif st.rv["k"] == "bin" and st.rv["op"] == "Eq" and st.lhs.local == d.place.local:
+                    a, b2 = Operand(st.rv["a"]), Operand(st.rv["b"])
+                    def ev(o):
+                        if o.is_const:
+                            return ("const", o.int_value())
+                        if o.place is not None and o.place.is_local:
+                            return vals.get(o.place.local)
+                        return None
+                    va, vb = ev(a), ev(b2)
+                    for x, y in ((va, vb), (vb, va)):
+                        if x and y and x[0] == "len" and y[0] == "const":
+                            src, k = x[1], y[1]
+            if k is None:
+                continue
+            # the slice local may be a raw pointer to the slice place
+            base = Place({"l": src, "p": []})
+            if not (origin_keys(T.origins(body, blk.idx, 0, base)) & vkeys):
+                continue
+            for e in cfg.succ.get(blk.idx, []):
+                is_true = e.label != ("sw", 0)
+                if k == len(c) and not is_true:
+                    out.append(e.key())
+                elif k != len(c) and is_true:
+                    out.append(e.key())
+        # (c) emptiness tests
+        for t in body.calls("std::ffi::OsString::is_empty", "std::ffi::OsStr::is_empty", "core::slice::<impl [T]>::is_empty", "std::path::Path::is_empty"):
+            if not (origin_keys(T.origins_of_arg(t, 0)) & vkeys):
+                continue
+            be = bool_edges(body, t)
+            if be is None:
+                continue
+            if c == "":
+                out.extend(e.key() for e in be["false"])
+            else:
+                out.extend(e.key() for e in be["true"])
+        self._memo[key] = out
+        return out
 
     def _none_edges(self, body, origins):
         """Edges taken when an Option whose payload is the value is None: on those paths the value
